@@ -291,7 +291,7 @@ fn judge(bodies: &[Vec<Call>], iso: &[Vec<Obs>], e: &Execution) -> Option<(Strin
     None
 }
 
-pub fn explore(bodies: &[Vec<Call>], bound: usize, cap: u64) -> Stats {
+pub fn explore(bodies: &[Vec<Call>], bound: usize, cap: u64, progress: &mut dyn FnMut(u64)) -> Stats {
     let iso: Vec<Vec<Obs>> = bodies.iter().map(|b| b.iter().map(isolated).collect()).collect();
     let mut st = Stats {
         schedules: 0,
@@ -312,6 +312,9 @@ pub fn explore(bodies: &[Vec<Call>], bound: usize, cap: u64) -> Stats {
         }
         let e = run_once(bodies, &prefix);
         st.schedules += 1;
+        if st.schedules % 20 == 0 {
+            progress(st.schedules);
+        }
         st.points += e.points.len() as u64;
         st.max_points = st.max_points.max(e.points.len() as u64);
         let pre = preemptions(&e.points);
@@ -477,7 +480,11 @@ pub fn run(ctx: &mut Ctx) {
         // iterate the bound: 0, 1, .. so that the first counterexample has the fewest preemptions
         let mut last: Option<Stats> = None;
         for bnd in 0..=bound {
-            let st = explore(&bodies, bnd, cap);
+            let nm = name.clone();
+            let st = {
+                let c = &mut *ctx;
+                explore(&bodies, bnd, cap, &mut |n| c.heartbeat(&json!({"schedule_config": nm, "bound": bnd, "schedules_so_far": n})))
+            };
             ctx.tick_external(&json!({"schedule_config": name, "bound": bnd, "schedules": st.schedules}));
             let failed = !st.violations.is_empty();
             if bnd == bound || failed {
